@@ -52,6 +52,38 @@ ASSUMPTIONS = ['the application\'s decisions are functions of (user, credential)
 MSG_USERAUTH_REQUEST, MSG_GLOBAL_REQUEST = 50, 80
 ALGS = dict(encryption_algs=['chacha20-poly1305@openssh.com'], kex_algs=['curve25519-sha256'],
             compression_algs=['none'], mac_algs=())
+def translate(ctx: Ctx) -> Dict[str, Any]:
+    """Gen/C05.lean: which request-handling discipline the source implements (read from the AST)."""
+    import ast
+    import translate as T
+    import vlib
+    tree = ast.parse(T.read_source('asyncssh/connection.py'))
+    req = T.find_def(tree, 'SSHConnection._process_userauth_request')
+    fin = T.find_def(tree, 'SSHConnection._finish_userauth')
+    req_src = ast.unparse(req)
+    aborts = any(isinstance(n, ast.Call) and ast.unparse(n.func) == 'self._auth.cancel' for n in ast.walk(req))
+    # the test deciding whether begin_auth runs: `username != self._auth_begun_username` (final) or
+    # `username != self._username` (before the second repair)
+    begin_assigns = [n for n in ast.walk(req) if isinstance(n, ast.Assign) and ast.unparse(n.targets[0]) == 'begin_auth'
+                     and not isinstance(n.value, ast.Constant)]
+    begin_by_begun = any('_auth_begun_username' in ast.unparse(n.value) for n in begin_assigns)
+    stale = sum(1 for n in ast.walk(fin) if isinstance(n, ast.If) and '_auth_request_seq' in ast.unparse(n.test)
+                and any(isinstance(b, ast.Return) for b in n.body))
+    marks_begun = any(isinstance(n, ast.Assign) and ast.unparse(n.targets[0]) == 'self._auth_begun_username'
+                      for n in ast.walk(fin))
+    if 'create_task' not in req_src or '_finish_userauth' not in req_src:
+        raise T.Untranslatable('_process_userauth_request no longer hands over to _finish_userauth')
+    out = T.header('C05', ['asyncssh/connection.py (_process_userauth_request, _finish_userauth)'])
+    out += 'namespace AsyncsshModel.Gen.C05\n\n'
+    out += f'/-- a new USERAUTH_REQUEST cancels the auth object in progress -/\ndef abortsPrevious : Bool := {T.lean_bool(aborts)}\n'
+    out += f'/-- begin_auth is skipped only for the user it completed for -/\ndef beginTestIsBegun : Bool := {T.lean_bool(begin_by_begun and marks_begun)}\n'
+    out += f'/-- how many times _finish_userauth re-checks that its request is still the latest -/\ndef staleChecks : Nat := {stale}\n'
+    out += '\nend AsyncsshModel.Gen.C05\n'
+    changed = vlib.write_if_changed(vlib.module_path('AsyncsshModel.Gen.C05'), out)
+    return {'gen_file': 'Gen/C05.lean', 'changed': changed, 'abortsPrevious': aborts, 'beginTestIsBegun': begin_by_begun and marks_begun,
+            'staleChecks': stale}
+
+
 _KEYS: List[Any] = []
 
 
@@ -141,7 +173,8 @@ def build_request(u: int, method: str, c: int, sid: bytes, rng: random.Random) -
     body = head + S(b'publickey') + b'\1' + S(alg) + S(blob)
     signed = S(sid) + bytes([MSG_USERAUTH_REQUEST]) + body
     if method == 'pksig0':
-        how = rng.choice(['wrong-session-id', 'wrong-user', 'other-key', 'flipped-bit'])
+        how = rng.choice(['wrong-session-id', 'wrong-user', 'other-key', 'flipped-bit', 'empty', 'empty', 'one-byte',
+                          'empty-inner', 'wrong-service-signed'])
         info['badsig'] = how
         if how == 'wrong-session-id':
             signed = S(bytes(len(sid))) + bytes([MSG_USERAUTH_REQUEST]) + body
@@ -151,6 +184,15 @@ def build_request(u: int, method: str, c: int, sid: bytes, rng: random.Random) -
             sig = key.sign(S(sid) + bytes([MSG_USERAUTH_REQUEST]) + other, alg)
         elif how == 'other-key':
             sig = keys()[(c + 1) % len(keys())].sign(signed, alg)
+        elif how == 'empty':
+            sig = b''                           # signature string of length zero
+        elif how == 'one-byte':
+            sig = b'\0'
+        elif how == 'empty-inner':
+            sig = S(alg) + S(b'')               # well-framed blob with an empty signature value
+        elif how == 'wrong-service-signed':
+            other = S(b'user%d' % u) + S(b'ssh-userauth') + S(b'publickey') + b'\1' + S(alg) + S(blob)
+            sig = key.sign(S(sid) + bytes([MSG_USERAUTH_REQUEST]) + other, alg)
         else:
             good = bytearray(key.sign(signed, alg))
             good[-1] ^= 1
@@ -163,7 +205,7 @@ def build_request(u: int, method: str, c: int, sid: bytes, rng: random.Random) -
 async def run_script(app: Dict[str, Any], events: List[str], seed: int, settle_each: bool = True) -> Dict[str, Any]:
     rng = random.Random(seed)
     rec: Dict[str, Any] = {'calls': [], 'begins': [], 'vals': [], 'auth_completed': False}
-    out: Dict[str, Any] = {'events': events, 'app': app}
+    out: Dict[str, Any] = {'events': events, 'app': app, 'seed': seed}
     with mock.patch.object(connmod.SSHClientConnection, 'try_next_auth', lambda self, **kw: None), \
             capture.PacketTap() as tap, capture.KeyTap() as kt:
         coro, s, hub = await pair.make_pair(server_factory=lambda: AuthServer(app, rec), connect=False,
@@ -320,7 +362,7 @@ CORPUS = [
      ['req:1:password:1', 'req:2:pksig1:0', 'val:0', 'val:1']),
     ({'async': False, 'noauth': [], 'pw': [], 'key': [(1, 0)]},
      ['req:1:pkprobe:0', 'val:0', 'req:1:pksig0:0', 'val:1', 'req:1:pksig1:0', 'val:2', 'req:1:none:0', 'other', 'req:1:none:0']),
-]
+] + [({'async': False, 'noauth': [], 'pw': [], 'key': [(1, 0)]}, ['req:1:pksig0:0', 'val:0']) for _ in range(12)]
 
 
 def correspondence(ctx: Ctx) -> CorrResult:
@@ -405,7 +447,8 @@ def oracle(ctx: Ctx) -> OracleResult:
         if 'skip' in o:
             continue
         res.evaluations += 1
-        key = {'app': o['app'], 'events': o['events']}
+        key = {'app': o['app'], 'events': o['events'], 'seed': o['seed'],
+               'bad_signature_kinds': [i.get('badsig') for i in o.get('infos', []) if i.get('badsig')]}
         u = o['complete']
         hist.hit('authenticated' if u is not None else 'not-authenticated')
         if u is not None and not granted(o, u):
@@ -414,7 +457,7 @@ def oracle(ctx: Ctx) -> OracleResult:
             if checked and u not in checked:
                 sig += ':user-switched-while-validator-pending' if any(e.startswith('req') for e in o['events'][1:]) else ''
             res.failures.append(Failure(sig, f'server reports authentication as user{u}; successful checks were for '
-                                             f'users {checked}; events {o["events"]}', key))
+                                             f'users {checked}; events {o["events"]} {key["bad_signature_kinds"]}', key))
     res.nontrivial = len(set((str(o['app']), tuple(o['events'])) for o in outs if 'skip' not in o))
     res.histogram = dict(hist)
     res.samples = [{'app': o['app'], 'events': o['events'], 'complete': o.get('complete')} for o in outs[:3]]
@@ -424,7 +467,7 @@ def oracle(ctx: Ctx) -> OracleResult:
 
 def replay(ctx: Ctx, rep: Dict[str, Any]) -> List[Failure]:
     r = rep.get('replay', rep)
-    o = pair.run(run_script(r['app'], r['events'], 0), sync_executor=True)
+    o = pair.run(run_script(r['app'], r['events'], r.get('seed', 0)), sync_executor=True)
     if o.get('complete') is not None and not granted(o, o['complete']):
         return [Failure('authenticated-without-credential-check', str(o['complete']), r)]
     return []
